@@ -307,6 +307,54 @@ def gen_angles(rng, n):
     return xs
 
 
+def dms_corpus(ctx, cs, mism, quick):
+    """Directed corpus, independent of the seed, run before the random stream: "written-down" angles in [-360, 360] -
+    whole arcminutes k/60, whole arcseconds k/3600, hundredths and tenths of a degree, d + m/60 - positive and negative,
+    whole arrays and scalars, degree and radian API.  Such angles sit within an ulp of a (deg, min) cell boundary, where
+    floor(minutes) and the seconds remainder must still belong to the same cell (13' 59.99999" or 14' 0.0", never 14' 59.99999")."""
+    from midgard.math.unit import Unit
+    deg2rad = math.pi / 180.0
+    st = (29, 9973, 97, 13) if quick else (2, 211, 5, 1)
+    groups = [
+        ("arcmin", [k / 60.0 for k in range(-21600, 21601, st[0])]),
+        ("arcsec", [k / 3600.0 for k in range(-1296000, 1296001, st[1])]),
+        ("hundredth", [k / 100.0 for k in range(-36000, 36001, st[2])]),
+        ("tenth", [k / 10.0 for k in range(-3600, 3601, st[3])]),
+        ("deg+min/60", [sg * (d + m / 60.0) for sg in (1, -1) for d in ((0, 29, 359) if quick else (0, 1, 29, 59, 180, 359)) for m in range(60)]),
+    ]
+
+    def add(api, x, d, m, s, bk, how, label):
+        rep = dict(kind="dms", api=api, x=repr(x), x_hex=float(x).hex(), dms=[repr(d), repr(m), repr(s)], back=repr(bk), how=how, corpus=label)
+        cs.add(emit.pair(emit.z(api), emit.dy(x), emit.pair(emit.dy(d), emit.dy(m), emit.dy(s)), emit.dy(bk)), rep)
+        ctx.case(("dms-corpus", api, float(x).hex(), how), nontrivial=True)
+
+    for label, xs in groups:
+        for api in (0, 1):
+            arr = np.array(xs) if api == 0 else np.array(xs) * deg2rad
+            if api == 1 and label not in ("arcmin", "deg+min/60"):
+                arr = arr[::4]
+            fwd, back = (Unit.deg_to_dms, Unit.dms_to_deg) if api == 0 else (Unit.rad_to_dms, Unit.dms_to_rad)
+            name = "deg" if api == 0 else "rad"
+            how = f"Unit.dms_to_{name}(*Unit.{name}_to_dms(np.array(angles)))  [{label} corpus, whole array]"
+            try:
+                d, m, s = fwd(arr)
+                bk = back(d, m, s)
+                for i in range(len(arr)):
+                    add(api, float(arr[i]), float(d[i]), float(m[i]), float(s[i]), float(bk[i]), how, label)
+            except Exception as e:
+                mism.append(dict(kind="dms", api=api, x=f"{label} corpus ({len(arr)} angles)", observed=f"{type(e).__name__}: {e}", how=how))
+            # the same through scalar calls, every 17th angle
+            hows = f"Unit.dms_to_{name}(*Unit.{name}_to_dms(x))  [{label} corpus, scalar]"
+            for x in arr[::17]:
+                x = float(x)
+                try:
+                    d, m, s = fwd(x)
+                    add(api, x, float(d), float(m), float(s), float(back(d, m, s)), hows, label)
+                except Exception as e:
+                    mism.append(dict(kind="dms", api=api, x=repr(x), observed=f"{type(e).__name__}: {e}", how=hows))
+            ctx.count(f"dms:corpus:{label}:{name}", len(arr))
+
+
 def dms_cases(ctx, cs, mism, n):
     from midgard.math.unit import Unit
     rng = ctx.rng
@@ -942,6 +990,7 @@ def run(ctx):
     dms = Cases("check_dms", 400)
     hms = Cases("check_hms", 400)
     if on("dms"):
+        dms_corpus(ctx, dms, mism, q)
         dms_cases(ctx, dms, mism, 300 if q else 6000)
         hms_cases(ctx, hms, mism, 40 if q else 400)
     lag = Cases("check_lagrange", 12 if q else 24)
@@ -964,7 +1013,7 @@ def run(ctx):
     ctx.log(f"cases: factor={len(fact.terms)} dms={len(dms.terms)} lagrange={len(lag.terms)} laws={len(rows.terms) + len(lin.terms)} "
             f"dop={len(dop.terms)} plate={len(plate.terms)}")
     # statistics only: how many degree-API decompositions are literally the model's (deg, min) cell
-    cell_terms = [t for t, m in zip(dms.terms, dms.meta) if m["api"] == 0]
+    cell_terms = [t for t, m in zip(dms.terms, dms.meta) if m["api"] == 0 and "corpus" not in m]
     if cell_terms:
         cv = emit.flatten_verdicts(coq_cases_retry(ctx, emit.shard_terms("same_cell", cell_terms, 400)), len(cell_terms))
         if cv is not None:
